@@ -25,11 +25,19 @@ const (
 	invalidText = "steps:\n  - name: s1\n   command: [unclosed\n"
 )
 
-func dagText(steps [2]string, descr string) string {
-	return fmt.Sprintf("description: %s\nsteps:\n  - name: %s\n    command: \"true\"\n  - name: %s\n    command: \"true\"\n    depends:\n      - %s\n", descr, steps[0], steps[1], steps[0])
+func dagText(steps []string, descr string) string {
+	var sb strings.Builder
+	fmt.Fprintf(&sb, "description: %s\nsteps:\n", descr)
+	for i, st := range steps {
+		fmt.Fprintf(&sb, "  - name: %s\n    command: \"true\"\n", st)
+		if i > 0 {
+			fmt.Fprintf(&sb, "    depends:\n      - %s\n", steps[i-1])
+		}
+	}
+	return sb.String()
 }
 
-var stepsOf = map[string][2]string{"d1": {"s1", "s2"}, "d2": {"t1", "t2"}}
+var stepsOf = map[string][]string{"d1": {"s1", "s2"}, "d2": {"t1", "t2"}}
 
 // alphabet, simplest first.
 var alphabet = []action{
@@ -82,9 +90,55 @@ func applicable(b base, a action) bool {
 	return a.Req != "middle" || len(runsOf(b, a.Dag)) >= 3
 }
 
+// Step names of the base states whose recorded runs have different step lists (base.Steps).
+var stepNames = []string{"check", "extract", "transform", "load", "validate"}
+
+// stepEdits: mark-success / mark-failed for every (run, step name) pair, e.g. "mark-failed(older,step=load)".
+var stepEdits = func() []action {
+	var out []action
+	for _, req := range []string{"older", "middle", "latest"} {
+		for _, st := range stepNames {
+			for _, act := range []string{"mark-success", "mark-failed"} {
+				out = append(out, action{Key: fmt.Sprintf("%s(%s,step=%s)", act, req, st), Dag: "d1", Act: act, Req: req, Step: st})
+			}
+		}
+	}
+	return out
+}()
+
+// alphabetOf: the actions issued from a base state. Bases whose runs have different step lists: the status edits
+// of every (run, step name) pair over the union of the step names of all runs; every other base: the alphabet
+// (without the actions that address a middle run where there is none).
+func alphabetOf(b base) []action {
+	var out []action
+	if b.Steps == nil {
+		for _, a := range alphabet {
+			if applicable(b, a) {
+				out = append(out, a)
+			}
+		}
+		return out
+	}
+	union := map[string]bool{}
+	for _, l := range b.Steps {
+		for _, st := range l {
+			union[st] = true
+		}
+	}
+	for _, a := range stepEdits {
+		if union[a.Step] && applicable(b, a) {
+			out = append(out, a)
+		}
+	}
+	return out
+}
+
 var actionByKey = func() map[string]action {
 	m := map[string]action{}
 	for _, a := range alphabet {
+		m[a.Key] = a
+	}
+	for _, a := range stepEdits {
 		m[a.Key] = a
 	}
 	return m
@@ -110,6 +164,9 @@ type base struct {
 	IDs         string   `json:"ids,omitempty"`
 	Hist        []string `json:"hist,omitempty"`
 	Depth1Quick bool     `json:"depth1_quick,omitempty"` // quick tier: sequences of one action only
+	// Steps != nil: the step list each recorded run of d1 was recorded with, oldest first (the definition file is the
+	// newest one's); the actions issued from such a base are alphabetOf's status edits. nil: every run has stepsOf.
+	Steps [][]string `json:"steps,omitempty"`
 }
 
 var bases = []base{
@@ -127,6 +184,25 @@ var bases = []base{
 	{Name: "3-runs/finished/ids-nested-rev", D1: "finished", D2: "failed", IDs: "nested-rev", Hist: []string{"failed", "failed"}, Depth1Quick: true},
 	{Name: "3-runs/crashed/ids-shared-8", D1: "crashed", D2: "finished", IDs: "shared-8", Hist: []string{"finished", "failed"}, Depth1Quick: true},
 	{Name: "3-runs/running/ids-shared-8", D1: "running", D2: "finished", IDs: "shared-8", Hist: []string{"failed", "finished"}},
+	// the definition changed between the recorded runs of d1: every run has its own step list
+	{Name: "steps/inserted-in-front", D1: "failed", D2: "finished", Hist: []string{"failed"},
+		Steps: [][]string{{"extract", "transform", "load"}, {"check", "extract", "transform", "load"}}},
+	{Name: "steps/removed", D1: "failed", D2: "finished", Hist: []string{"failed"},
+		Steps: [][]string{{"extract", "transform", "load"}, {"extract", "load"}}},
+	{Name: "steps/swapped", D1: "failed", D2: "finished", Hist: []string{"failed"},
+		Steps: [][]string{{"extract", "transform", "load"}, {"transform", "extract", "load"}}},
+	{Name: "steps/renamed", D1: "failed", D2: "finished", Hist: []string{"failed"},
+		Steps: [][]string{{"extract", "transform", "load"}, {"extract", "validate", "load"}}},
+	{Name: "steps/3-runs/inserted-then-swapped-and-removed", D1: "finished", D2: "finished", Hist: []string{"failed", "failed"},
+		Steps: [][]string{{"extract", "transform", "load"}, {"check", "extract", "transform", "load"}, {"transform", "check", "extract"}}},
+}
+
+// stepsOfRun: the step list the i-th run (oldest first) of a DAG was recorded with in a base state.
+func stepsOfRun(b base, dag string, i int) []string {
+	if dag == "d1" && b.Steps != nil && i < len(b.Steps) {
+		return b.Steps[i]
+	}
+	return stepsOf[dag]
 }
 
 // recRun is one run of a base state (Live: the run of the in-process agent, not written by the harness).
@@ -143,7 +219,7 @@ func runsOf(b base, dag string) []recRun {
 		return nil
 	}
 	states := []string{"finished"}
-	if b.IDs != "" && dag == "d1" {
+	if len(b.Hist) > 0 && dag == "d1" {
 		states = append([]string(nil), b.Hist...)
 	}
 	states = append(states, st)
@@ -228,9 +304,9 @@ func (m member) String() string { return m.Base + " : " + strings.Join(m.Actions
 // ---- reference model ------------------------------------------------------------
 
 type dagModel struct {
-	State string   // none | finished | failed | canceled | crashed | running
-	Runs  []string // request ids, oldest first
-	Steps [2]string
+	State string              // none | finished | failed | canceled | crashed | running
+	Runs  []string            // request ids, oldest first
+	Steps map[string][]string // request id -> the step list that run was recorded with
 }
 
 type refModel struct {
@@ -241,9 +317,10 @@ type refModel struct {
 func newModel(b base) *refModel {
 	m := &refModel{D: map[string]*dagModel{}}
 	for _, d := range []struct{ n, s string }{{"d1", b.D1}, {"d2", b.D2}} {
-		dm := &dagModel{State: d.s, Steps: stepsOf[d.n]}
-		for _, r := range runsOf(b, d.n) {
+		dm := &dagModel{State: d.s, Steps: map[string][]string{}}
+		for i, r := range runsOf(b, d.n) {
 			dm.Runs = append(dm.Runs, r.ID)
+			dm.Steps[r.ID] = stepsOfRun(b, d.n, i)
 		}
 		m.D[d.n] = dm
 	}
@@ -358,7 +435,7 @@ func (m *refModel) expect(a action, req string) expect {
 			return expect{Class: "refuse", Why: "malformed: the request id is not a run of the addressed DAG"}
 		}
 		idx := -1
-		for i, s := range d.Steps {
+		for i, s := range d.Steps[req] { // the ADDRESSED run's own step list decides
 			if s == a.Step {
 				idx = i
 			}
